@@ -14,6 +14,8 @@ Import ListNotations.
 Open Scope bool_scope.
 Open Scope Z_scope.
 
+Module Utf8M.
+
 Definition rune_error : Z := 65533.
 
 Definition in_rng (lo hi b : Z) : bool := (lo <=? b) && (b <=? hi).
@@ -51,3 +53,6 @@ Definition decode (s : str) : Z * Z :=
       | _ => (rune_error, 1)
       end
   end.
+
+End Utf8M.
+Export Utf8M.
